@@ -562,8 +562,15 @@ class ProcDomain(paths.Domain):
     emit the completion (directly or through a helper that reaches it), hand
     the procedure to the link / a continuation, or store the pending slot."""
 
-    def __init__(self, reach, conclude_pred, prune_link, error_status=True):
+    def __init__(self, reach, conclude_pred, prune_link, error_status=True, peer_may_be_absent=False):
         self.reach, self.conclude_pred, self.prune = reach, conclude_pred, prune_link
+        self.peer_may_be_absent = peer_may_be_absent
+
+    def may_raise(self, call):
+        # the virtual link raises when nobody owns the destination address
+        if self.peer_may_be_absent and (call_attr(call) in ('send_ll_control_pdu', 'send_lmp_packet') or (dotted(call.func) or '').startswith('self.link.')):
+            return 'InvalidArgumentError'
+        return None
 
     def event(self, node, v: PS):
         if isinstance(node, ast.Call):
@@ -651,12 +658,17 @@ def procedures(ctx):
         if fn is None:
             R.bad(rule, key, f'anchor missing: {CTRL}.{hname}')
             continue
-        dom = ProcDomain(reach, pred, prune)
+        absent = hname in ('on_hci_create_connection_command', 'on_hci_disconnect_command')  # the peer may not (or no longer) be on the link
+        dom = ProcDomain(reach, pred, prune, peer_may_be_absent=absent)
         res = paths.run(fn, dom, PS(None, 0))
         bad = []
         n = 0
         for kind, st in res.items():
             if kind.startswith('raise'):
+                if absent and kind == 'raise:InvalidArgumentError':
+                    for v, w in st.items():
+                        if v.status == 'accepted' and not v.concluded:
+                            bad.append(f'the link send raises (peer not reachable) after acceptance and nothing concludes the procedure, via {" ".join(w)}')
                 continue
             for v, w in st.items():
                 n += 1
